@@ -80,9 +80,18 @@ def sessions(seed, fams, ncalls):
     for d in fams:
         voc = vocabulary(d) + ["1", "x", "2"]
         calls = []
+        letters = [x[1:] for x in voc if len(x) >= 2 and x[0] == "-" and x[1] != "-" and "=" not in x]
+        def cluster():
+            # several declared short names in one item, in any order, sometimes with a value glued on
+            return "-" + "".join(rnd.choice(letters) for _ in range(rnd.randint(2, 4))) + rnd.choice(["", "", "1", "=x"])
+        def one():
+            r = rnd.random()
+            if r < 0.15 and letters:
+                return cluster()
+            return rnd.choice(voc) if r < 0.75 else rnd.choice(HOSTILE_ARGS)
         def argv():
             k = rnd.choice([0, 1, 1, 2, 2, 3, 4, 6])
-            return [rnd.choice(voc) if rnd.random() < 0.7 else rnd.choice(HOSTILE_ARGS) for _ in range(k)]
+            return [one() for _ in range(k)]
         base = []
         for _ in range(ncalls):
             r = rnd.random()
